@@ -373,7 +373,9 @@ func loopCase(c Val) Val {
 	case a := <-m.acc:
 		dec = int64(a.svc)
 		handed = 1
-		_ = a.conn.SetReadDeadline(time.Now().Add(10 * time.Second))
+		// no deadline of our own on the accepted conn: whatever the listener left there must not hurt the service
+		guard := time.AfterFunc(10*time.Second, func() { _ = a.conn.Close() })
+		defer guard.Stop()
 		buf := make([]byte, rsize)
 		for len(got) < len(payload) {
 			n, err := a.conn.Read(buf)
@@ -385,7 +387,7 @@ func loopCase(c Val) Val {
 		_ = a.conn.Close()
 		<-closedByServer
 	case <-closedByServer:
-	case <-time.After(15 * time.Second):
+	case <-time.After(5 * time.Second):
 		return L(I(-9), I(0), I(0), I(0))
 	}
 	// a connection must reach at most one service: nothing else may show up for it
